@@ -81,6 +81,8 @@ func c10(c *core.Ctx) {
 	c.Rule("C10.state", "there is per-channel state (a field of SecureChannel or channelInstance) that is updated from the received SequenceHeader.SequenceNumber on the receive path; without remembered state no replay can be recognised", 1)
 	c.Rule("C10.compare", "the remembered sequence number is compared with the next received number, with an error on the failing edge, before a message is delivered", 0)
 
+	c10DupFilter(c, seqNum)
+
 	fns := reachableFrom(c, []*ssa.Function{recv}, "uasc")
 	c.Count("functions reachable from Receive (uasc)", len(fns))
 	scT := c.P.Named("uasc", "SecureChannel")
@@ -397,4 +399,81 @@ func joinS(s []string) string {
 		out += x
 	}
 	return out
+}
+
+// c10DupFilter: the only replay defence the receive path has today is the adjacent-duplicate filter of mergeChunks
+// (C10.state records that there is no per-channel memory). It recognises a replayed chunk only if the number it
+// compares with is the number of the chunk that was accepted last, i.e. the compared variable is loop carried and is
+// re-assigned from the current chunk's SequenceNumber on every iteration that accepts a chunk.
+func c10DupFilter(c *core.Ctx, seqNum *types.Var) {
+	merge := fn(c, "uasc", "", "mergeChunks")
+	if merge == nil {
+		for _, f := range libFns(c, "uasc") {
+			if f.Name() == "mergeChunks" {
+				merge = f
+			}
+		}
+	}
+	if merge == nil {
+		return
+	}
+	c.Rule("C10.dupfilter", "in mergeChunks the received SequenceNumber of each chunk is compared (==, with `continue` on equality) with a loop-carried variable that every accepting iteration re-assigns from that chunk's SequenceNumber: a verbatim copy of the chunk accepted last — whichever it is — is dropped", 1)
+	n := 0
+	for _, b := range merge.Blocks {
+		for _, in := range b.Instrs {
+			bo, ok := in.(*ssa.BinOp)
+			if !ok || (bo.Op != token.EQL && bo.Op != token.NEQ) {
+				continue
+			}
+			x, y := ssax.Strip(bo.X), ssax.Strip(bo.Y)
+			if loadedField(y).f == seqNum {
+				x, y = y, x
+			}
+			if loadedField(x).f != seqNum {
+				continue
+			}
+			n++
+			phi, isPhi := y.(*ssa.Phi)
+			ok2 := false
+			detail := "the received number is compared with " + ssax.Path(y) + ", which is not loop carried: only copies of one particular chunk are recognised"
+			if isPhi {
+				updated, foreign := false, ""
+				var visit func(p *ssa.Phi, seen map[*ssa.Phi]bool)
+				visit = func(p *ssa.Phi, seen map[*ssa.Phi]bool) {
+					if seen[p] {
+						return
+					}
+					seen[p] = true
+					for i, e := range p.Edges {
+						pred := p.Block().Preds[i]
+						if !p.Block().Dominates(pred) && p == phi {
+							continue // loop entry edge: the initial value (C12.sentinel decides that one)
+						}
+						ev := ssax.Strip(e)
+						switch {
+						case ev == ssa.Value(phi):
+						case loadedField(ev).f == seqNum:
+							updated = true
+						default:
+							if q, ok := ev.(*ssa.Phi); ok {
+								visit(q, seen)
+							} else {
+								foreign = ssax.Path(ev)
+							}
+						}
+					}
+				}
+				visit(phi, map[*ssa.Phi]bool{})
+				ok2 = updated && foreign == ""
+				detail = "compared variable is loop carried; re-assigned from the chunk's SequenceNumber: " + boolStr(updated)
+				if foreign != "" {
+					detail += "; also assigned " + foreign
+				}
+			}
+			c.Ob("C10.dupfilter", fname(merge)+"·SequenceNumber == previous", pos(c, bo), ok2, detail)
+		}
+	}
+	if n == 0 {
+		c.Ob("C10.dupfilter", fname(merge)+"·SequenceNumber == previous", c.P.Pos(merge.Pos()), false, "mergeChunks no longer compares sequence numbers of consecutive chunks: a replayed intermediate chunk is spliced into the message twice")
+	}
 }
